@@ -54,7 +54,7 @@ def pItem (p : Parsed) (item : String) : Parsed :=
   | [k, body] =>
     let f := body.splitOn ","
     match k, f with
-    | "C", [s, r, c, "V", obs] =>
+    | "C", [s, r, c, "V", obs, _input] =>
       { p with book := { p.book with cells := p.book.cells ++ [⟨pNat s, pInt r, pInt c, .val obs⟩] } }
     | "C", [s, r, c, "F", tpl, obs, atoms] =>
       let h : Host := ⟨pNat s, pInt r, pInt c⟩
@@ -130,6 +130,8 @@ def c12 (args : List String) : String :=
     let res :=
       if kind == "ins" then insertAction axis (pNat s) (pInt pos) (pInt n) p.book
       else if kind == "del" then deleteAction axis (pNat s) (pInt pos) (pInt n) p.book
+      else if kind == "insdel" then
+        (insertAction axis (pNat s) (pInt pos) (pInt n) p.book).bind (deleteAction axis (pNat s) (pInt pos) (pInt n))
       else if api == "u" then userMoveAction axis (pNat s) (pInt pos) (pInt n) (pInt d) p.book
       else moveAction axis (pNat s) (pInt pos) (pInt n) (pInt d) p.book
     match res with
